@@ -495,7 +495,7 @@ def r3_collapse(program, folder, rep):
               node=add,
               fail="a child sub-tree is overwritten or released: selections "
                    "held further down (for other cores) are lost",
-              positive=bool(others or dels))
+              positive=_releases_subtree(cls))
     # (levels run 0..3 - checked by R2 - so ``level >= 3`` is ``level == 3``)
     okl = any(lf_ in [(plain(t), p) for t, p in A.all_facts(s_[0])]
               for s_ in sets for lf_ in (
@@ -822,6 +822,28 @@ def r3_grouping(program, rep):
                        "strictly contains another core's is listed in both "
                        "pairs and selected twice" % what)
 
+
+
+def _releases_subtree(cls):
+    """Does any method of the tree class store None into (or delete) an
+    entry of self.subregions - outside __init__?  (evidence of its own that
+    sub-trees are discarded, whatever else the method looks like)"""
+    for m_ in cls.body:
+        if not isinstance(m_, ast.FunctionDef) or m_.name == "__init__":
+            continue
+        for n_ in ast.walk(m_):
+            if isinstance(n_, ast.Delete) and any(
+                    isinstance(t_, ast.Subscript) and
+                    chain(t_.value) == "self.subregions"
+                    for t_ in n_.targets):
+                return True
+            if isinstance(n_, ast.Assign) and isinstance(
+                    n_.value, ast.Constant) and n_.value.value is None and \
+                    any(isinstance(t_, ast.Subscript) and
+                        chain(t_.value) == "self.subregions"
+                        for t_ in n_.targets):
+                return True
+    return False
 
 def check(program, rep):
     program.module(MOD)
